@@ -50,12 +50,12 @@ func init() {
 				if tier == "thorough" {
 					return 200
 				}
-				return 16
+				return 8
 			}
 			if tier == "thorough" {
-				return 4000
+				return 1280 // 40 histories x 8 slots per schedule kind
 			}
-			return 160
+			return 32 // 1 history x 8 slots for kinds 0 and 1, 8 random schedules, 8 stress histories
 		},
 		Variants:    func(tier string) []string { return []string{"default", "race"} },
 		Run:         run,
@@ -344,6 +344,9 @@ func (s *sched) finish(t *tracee) {
 func run(c *fw.Case) {
 	kind := c.Idx % 4
 	group := c.Idx / 4
+	if c.Variant == "race" {
+		kind = 3 // the schedules run separate (uninstrumented-equivalent) processes; only the in-process stress profits from -race
+	}
 	if kind == 3 {
 		stress(c)
 		return
@@ -363,6 +366,7 @@ func run(c *fw.Case) {
 		os.MkdirAll(db, 0o755)
 		defer os.RemoveAll(db)
 		out := c.Tmp + "/view-" + name
+		c.Note("history %d schedule %s", hidx, name)
 		s := &sched{adj: map[string]bool{}}
 		s.w = startTracee("writer", []string{self, "-role", "dbwrite", db, histFile, "0", strconv.Itoa(n)}, db)
 		s.r = startTracee("reader", []string{self, "-role", "dbread", db, out}, db)
